@@ -40,7 +40,7 @@ def cells(tier):
                 [["unlock", {"after": [1, 1], "after_done": True}], S("T", 1), ["stop", 2]]], outcomes=["ret"])
     # (the close is only attempted once every created task has had its first step: cancelling the caller of
     # gather_and_close() cancels the gathered tasks through asyncio itself, see DESIGN.md "observations outside the properties")
-    out.append(cell("sinf S3|gac@idle|cancel-the-close|unlock,T1,stop(2)", sc, MON))
+    out.append(cell("sinf S3|gac@idle|cancel-the-close|unlock,T1,stop(2)", sc, MON, own_only=True))
     sc = scen(pool(3, "SimpleTaskPool", ecb="plain", ccb="plain"), [[S("S", 3)], [GAC], [["unlock", {"after": [1, 1], "after_done": True}], ["stop", 1], ["stop_all"]]], outcomes=["ret", "exc"])
     out.append(cell("s3 S3|gac(fails)|unlock,stop(1),stop_all", sc, MON))
     # two SimpleTaskPools in one loop whose task ids coincide: a stop on one never touches the other's tasks
